@@ -1304,14 +1304,17 @@ DET_GRAMMARS.update({
     "layout": "S: Num+;\nLayout: LayoutItem*;\nLayoutItem: WS | Comment;\nterminals\nNum: /\\d+/;\nWS: /\\s+/;\nComment: /\\/\\/.*/;\n",
 })
 DET_DEFAULT = dict(algo="lr", tt="u", ps=False, pse=True, ms="u", lm="u", go="u", gen="functions", lexer="default",
-                   builder="default", loc_info=False, fancy=False, partial=False, skip_ws=True, actions=True)
+                   builder="default", loc_info=False, fancy=False, partial=False, skip_ws=True, actions=True,
+                   input="str", dot=False, print_table=False)
 
 
 def det_vectors(tier, seed):
     one = [dict(algo="glr"), dict(tt="lalr"), dict(tt="pager"), dict(tt="rn"), dict(ps=True), dict(pse=False),
            dict(ms="f"), dict(lm="f"), dict(ms="t"), dict(go="t"), dict(gen="arrays"), dict(lexer="custom"),
            dict(builder="generic"), dict(builder="custom"), dict(loc_info=True), dict(fancy=True),
-           dict(partial=True), dict(skip_ws=False), dict(actions=False)]
+           dict(partial=True), dict(skip_ws=False), dict(actions=False),
+           dict(lexer="custom", input="MyInput"), dict(dot=True), dict(print_table=True),
+           dict(lexer="custom", builder="generic", input="[u8]")]
     two = [dict(algo="glr", tt="lalr"), dict(algo="glr", ps=True), dict(algo="glr", pse=True), dict(algo="glr", go="t"),
            dict(algo="glr", go="f"), dict(algo="glr", lm="f"), dict(algo="glr", gen="arrays"),
            dict(algo="glr", loc_info=True), dict(algo="glr", builder="generic"), dict(tt="lalr", ps=True),
@@ -1345,6 +1348,12 @@ def cli_args(v, out):
         a.append("--no-skip-ws")
     if not v["actions"]:
         a.append("--noactions")
+    if v.get("input", "str") != "str":
+        a += ["-i", v["input"]]
+    if v.get("dot"):
+        a.append("--dot")
+    if v.get("print_table"):
+        a.append("--print-table")
     return a
 
 
@@ -1352,6 +1361,12 @@ def api_settings(v):
     st = dict(algo=v["algo"], ps=v["ps"], pse=v["pse"], gen=v["gen"], lexer=v["lexer"], builder=v["builder"],
               loc_info=v["loc_info"], fancy=v["fancy"], partial=v["partial"], skip_ws=v["skip_ws"],
               actions=v["actions"], force=False)
+    if v.get("input", "str") != "str":
+        st["input_type"] = v["input"]
+    if v.get("dot"):
+        st["dot"] = True
+    if v.get("print_table"):
+        st["print_table"] = True
     if v["tt"] != "u":
         st["tt"] = v["tt"]
     for k in ("ms", "lm", "go"):
